@@ -49,6 +49,8 @@ def run(ctx):
     okt = bool(rmb) and all(guarded_any(tp, b, [r'\.packet is Publish$']) and guarded_any(tp, b, [r'^!\(.*\.qos == QualityOfService::AtMostOnce\{\}\)$']) for b in rmb)
     ctx.ob(okt, 'next-time: None under the same receive-maximum predicate', 'mirror|recvmax|next-time', loc=tp.loc())
     from ..mir import var_inits
+    rtp = prims.rets_after(tp, [RM, r'\.packet is Publish$', r'^!\(.*\.qos == QualityOfService::AtMostOnce\{\}\)$'])
+    ctx.ob(rtp == {'None'}, 'next-time completeness: at the receive maximum with a QoS>0 publish at the head the answer is always None (%s)' % sorted(rtp or []), 'mirror|recvmax|next-time-complete', loc=tp.loc())
     hi = var_inits(tp, 'head')
     first = [show(e) for b, e in hi if not guarded_any(tp, b, [r'^Option::is_none\(head\)$'])]
     second = [show(e) for b, e in hi if guarded_any(tp, b, [r'^Option::is_none\(head\)$'])]
